@@ -109,6 +109,19 @@ class Exec:
         if r == unknown: raise Inconclusive('solver returned unknown')
         return m
 
+    def concretize(self, term):
+        """The integer value of `term` if it is the same on every model of the current path, else None."""
+        if isinstance(term, int): return term
+        ts = simplify(term)
+        if is_bv_value(ts): return ts.as_long()
+        t0 = time.time(); self.queries += 2
+        r = self.solver.check()
+        if r != sat: return None
+        v = self.solver.model().eval(term, model_completion=True)
+        self.solver.push(); self.solver.add(term != v); r2 = self.solver.check(); self.solver.pop()
+        self.solver_s += time.time() - t0
+        return v.as_long() if r2 == unsat else None
+
     def record_formula(self, label, pc, negpost):
         self.n_recorded = getattr(self, 'n_recorded', 0) + 1
         if len(self.formulas) < 4000:
@@ -189,9 +202,9 @@ class Exec:
             if re.fullmatch(r'_\d+', idx):
                 iv = self.operand(fid, env, 'copy ' + idx)
                 if not isinstance(iv, int):
-                    ivs = simplify(iv)
-                    if not is_bv_value(ivs): raise Inconclusive('symbolic index ' + p)
-                    iv = ivs.as_long()
+                    c = self.concretize(iv)
+                    if c is None: raise Inconclusive('symbolic index ' + p)
+                    iv = c
             else:
                 mm = re.match(r'(-?\d+) of (\d+)', idx) or re.match(r'(\d+)', idx)
                 iv = int(mm.group(1))
@@ -620,10 +633,10 @@ class Exec:
         if mm: return [op(mm.group(1)) for _ in range(int(mm.group(2)))]
         mm = re.match(r'(?:std::ops::|core::ops::)?Range(?:Inclusive)?::<.*?> \{ start: (.*), end: (.*?)(?:, exhausted: .*)? \}$', rhs)
         if mm: return {0: op(mm.group(1)), 1: op(mm.group(2)), '__ty': 'Range'}
-        mm = re.match(r'(?:copy|move) (.*) as (.*) \(([A-Za-z]+(?:\(.*\))?)\)$', rhs)
+        mm = re.match(r'(copy|move|const) (.*) as (.*) \(([A-Za-z]+(?:\(.*\))?)\)$', rhs)
         if mm:
-            src, ty, kind = mm.groups()
-            v = self.read(fid, env, src)
+            okind, src, ty, kind = mm.groups()
+            v = self.read(fid, env, src) if okind != 'const' else self.operand(fid, env, 'const ' + src)
             if kind == 'IntToInt':
                 if not is_bv(v):
                     if isinstance(v, Enum):
@@ -634,8 +647,9 @@ class Exec:
                 if w is None: return Opaque('cast')
                 if w == v.size(): return v
                 if w < v.size(): return Extract(w - 1, 0, v)
-                return SignExt(w - v.size(), v) if self.is_signed(fn, fid, 'copy ' + src) else ZeroExt(w - v.size(), v)
-            if ty.startswith(('*const', '*mut')) and not isinstance(v, Ref):
+                signed = self.is_signed(fn, fid, 'copy ' + src) if okind != 'const' else bool(re.search(r'_i\d+$|_isize$', src))
+                return SignExt(w - v.size(), v) if signed else ZeroExt(w - v.size(), v)
+            if ty.startswith(('*const', '*mut')) and not isinstance(v, Ref) and okind != 'const':
                 try:
                     l, path = self.lvalue(fid, env, src)
                     if isinstance(v, (dict, list, tuple, Enum)) or v is None: return Ref(l, path)
